@@ -588,7 +588,7 @@ impl World for WorldT {
                 7 => TOp::AddMinter { who: rng.below(NP as u64) as u8, auth: admin_auth(rng), abort },
                 8 => TOp::RemoveMinter { who: rng.below(NP as u64) as u8, auth: admin_auth(rng), abort },
                 9 => TOp::TransferOwnership { to: rng.below(NP as u64) as u8, via_set_admin: rng.chance(1, 2), auth: admin_auth(rng), abort },
-                10 => TOp::Advance { dseq: *rng.pick(&[1u32, 1, 1, 2, 3, 5, 15, 16, 17, 40]) },
+                10 => TOp::Advance { dseq: *rng.pick(&[1u32, 1, 1, 2, 3, 5, 15, 16, 17, 40, 1_100_000]) },
                 _ => TOp::Resubmit { k: rng.below(64) as u16 },
             };
             ops.push(op);
